@@ -374,7 +374,15 @@ func (b *Bundle) RegistryPackageVersions(pkgAddr regaddr.ModulePackage) versions
 	for v := range vs {
 		ret = append(ret, v)
 	}
-	ret.Sort()
+	// Versions that differ in build metadata only have the same precedence;
+	// their text decides, so that the result does not depend on the order
+	// in which the map happened to be read.
+	sort.SliceStable(ret, func(i, j int) bool {
+		if ret[i].Same(ret[j]) {
+			return ret[i].String() < ret[j].String()
+		}
+		return ret[i].LessThan(ret[j])
+	})
 	return ret
 }
 
